@@ -508,7 +508,11 @@ Definition check_query (m : mesh) (ws : wspec) (q : query) (o : obs) : bool :=
    The model adds exactly (Z): it describes the code only while this flag holds and the sums are within those bounds. *)
 Definition acc_float : bool := sp_init_dist_float && set_init_dist_float.
 
+(* A call that leaves `weights` / `export_path_mesh` out means weights = "length" and no exported polyline: the
+   correspondence encodes such calls as the "length" mode, which is right only while these generated flags hold. *)
+Definition defaults_ok : bool := default_weights_is_length && default_export_is_false.
+
 (* one case: a mesh, a weight mode, and a list of queries with the implementation's answers *)
 Definition check_case (c : mesh * wspec * list (query * obs)) : bool :=
   let '(m, ws, qs) := c in
-  acc_float && mesh_ok m ws && forallb (fun qo => check_query m ws (fst qo) (snd qo)) qs.
+  acc_float && defaults_ok && mesh_ok m ws && forallb (fun qo => check_query m ws (fst qo) (snd qo)) qs.
